@@ -418,6 +418,13 @@ class Check:
                                   " && lake env lean <#audit_module per property module> (harness/common.py lean_stage)")
             cov["trusted_base"] = TRUSTED_BASE + cov.get("trusted_base_extra", [])
             cov.pop("trusted_base_extra", None)
+            if any(m.endswith("Src") for m in getattr(self, "prop_modules", [])):
+                # Props/CxxSrc.lean: theorems about definitions regenerated from the source text (design.d/Translator.md)
+                cov["trusted_base"].append(
+                    "source translator harness/py2lean.py (structure: evaluation order, SSA, joins, loops) and "
+                    "lean/VelaVerif/Model/PyRt.lean (meaning of the Python / NumPy scalar integer operators), both validated "
+                    "against CPython/NumPy by tools/py2lean_selftest.py; for the functions covered by src_*_eq_model theorems "
+                    "this replaces 'hand transcription tied only by correspondence'")
             if getattr(lean, "leanchecker", None):
                 cov["leanchecker"] = lean.leanchecker
             if lean.failed:
